@@ -82,13 +82,14 @@ Contradictions(o) ==
 \* ---- second family: three looms with rank information on any subset of them (mixed: looms are
 \* ordered by name, the processes of a ranked loom by rank, of an unranked loom by pid), in every
 \* processing order.  PID order and rank order differ in looms 1 and 3.
-Slots3 == <<[l |-> 1, p |-> 40, t |-> 11], [l |-> 1, p |-> 30, t |-> 21], [l |-> 2, p |-> 50, t |-> 31],
-            [l |-> 3, p |-> 70, t |-> 41], [l |-> 3, p |-> 60, t |-> 51]>>
-Rank3(p) == CASE p = 40 -> 0 [] p = 30 -> 1 [] p = 50 -> 2 [] p = 70 -> 3 [] p = 60 -> 4
+\* PIDs are unique inside a loom only: loom 2 has a process with the PID of one of loom 1
+Slots3 == <<[l |-> 1, p |-> 40, t |-> 11, r |-> 0, a |-> 4], [l |-> 1, p |-> 30, t |-> 21, r |-> 1, a |-> 3],
+            [l |-> 2, p |-> 40, t |-> 31, r |-> 2, a |-> 5],
+            [l |-> 3, p |-> 70, t |-> 41, r |-> 3, a |-> 7], [l |-> 3, p |-> 60, t |-> 51, r |-> 4, a |-> 6]>>
 BuildMixed(R, ord) ==
    LET rec(i) == LET sl == Slots3[i] IN
-          M(sl.l, sl.p, sl.t, sl.p \div 10,
-            IF sl.l \in R THEN Rank3(sl.p) ELSE -1, IF sl.l \in R THEN 5 ELSE 0,
+          M(sl.l, sl.p, sl.t, sl.a,
+            IF sl.l \in R THEN sl.r ELSE -1, IF sl.l \in R THEN 5 ELSE 0,
             IF i \in {1, 3, 4} THEN <<<<0, 10 * sl.l>>>> ELSE <<>>)
    IN [k \in 1..5 |-> rec(ord[k])]
 MixedOrders == IF WithOrders THEN Perms(5)
